@@ -229,15 +229,16 @@ def outcome_key(x: sched.Execution) -> str:
     return json.dumps(x.obs["consumed"], sort_keys=True) if x.obs else "deadlock"
 
 
+BUDGET = 3000  # executions per task; the unexplored rest of a task's search stack comes back as further tasks
+
+
 def _explore_root(arg):
-    name, bound, root, cap = arg
-    st, fails, capped = sched.explore(lambda p: run_harness(name, p), judge, bound, roots=[root],
-                                      max_executions=cap, outcome_key=outcome_key)
-    return name, st, [(c, n, b) for c, n, b in fails], capped
-
-
-def _worker(chunk):
-    return [_explore_root(a) for a in chunk]
+    name, bound, roots, cap = arg
+    st, fails, capped = sched.explore(lambda p: run_harness(name, p), judge, bound, roots=roots,
+                                      max_executions=cap, outcome_key=outcome_key, budget=BUDGET)
+    rest, st.rest = st.rest, []
+    more = [(name, bound, rest[i::4], cap) for i in range(4) if rest[i::4]]
+    return (name, st, [(c, n, b) for c, n, b in fails], capped), more
 
 
 def roots_for(name: str, bound: int) -> List[List[int]]:
@@ -279,11 +280,12 @@ def check(tier: str, seed: int) -> Result:
         x1 = run_harness(name, [])
         if x1.trace != x0.trace or x1.obs != x0.obs:
             raise sched.ReplayDivergence(f"{name}: default schedule not reproducible")
-        for r in roots_for(name, bound):
-            jobs.append((name, bound, r, cap))
+        rs = roots_for(name, bound)
+        for k in range(0, len(rs), 8):
+            jobs.append((name, bound, rs[k:k + 8], cap))
     jobs = core.seeded_order(jobs, seed)
-    for part in core.pmap_chunks(_worker, jobs, chunk=max(1, len(jobs) // (core.NPROC * 4))):
-        for name, st, fails, capped in part:
+    for part in core.pmap_dynamic(_explore_root, jobs):
+        for name, st, fails, capped in [part]:
             p = per[name]
             p["executions"] += st.executions
             p["transitions"] += st.points
